@@ -255,3 +255,24 @@ func VT_mapset_script() {
 	s.RemoveAll(t)
 	vOut("after", z.Len(), s.Len(), s.Has(3), t.Len())
 }
+
+// VH_mapset_FloatClear: whatever the members are - self-unequal ones (NaN)
+// included, which can be added but never found or removed one by one - Clear
+// leaves the set empty.
+func VH_mapset_FloatClear() {
+	var zero float64
+	nan := zero / zero
+	vals := []float64{nan, 1, nan, 2}
+	s := New[float64]()
+	for i := 0; i < vCase("n"); i++ {
+		s.Add(vals[vChoice("member", len(vals))])
+	}
+	before := s.Len()
+	vAssert(before <= vCase("n"), "Len counts at most one member per Add")
+	r := s.Clear()
+	vCover("float-clear")
+	vAssert(s.Len() == 0 && s.IsEmpty() && r.Len() == 0, "Clear empties the set whatever its members are")
+	vAssert(len(s.Slice()) == 0, "Slice of a cleared set is empty")
+	s.Add(1)
+	vAssert(s.Len() == 1 && s.Has(1), "a cleared set is usable again")
+}
